@@ -109,6 +109,38 @@ theorem paren_invariance_full (e : Expr) (h : framesWith isCompound e ≤ MAX_DE
     parse (printFull e) = parse (printMin e) :=
   paren_invariance isCompound e h
 
+/-- Whatever text was accepted, the tree it produced fits the depth limit when printed minimally
+    (redundant parentheses only ever cost depth, they never buy any). -/
+theorem parse_ok_fits_depth (ts : List Tok) (e : Expr) (h : parse ts = .ok e) :
+    framesMin e ≤ MAX_DEPTH := by
+  unfold parse parseWith at h
+  cases hp : parseBpN MAX_DEPTH (fuelFor ts) 0 0 ts with
+  | error err => rw [hp] at h; simp [finish] at h
+  | ok p =>
+    obtain ⟨x, r⟩ := p
+    rw [hp] at h
+    cases r with
+    | cons t r => simp [finish] at h
+    | nil =>
+      simp only [finish, Except.ok.injEq] at h
+      subst h
+      have := ((depth_used MAX_DEPTH (fuelFor ts)).1 0 0 ts x [] (by decide) hp).1
+      rw [need_of_le (Nat.zero_le _)] at this
+      omega
+
+/-- Normal form: every accepted token list means the same as the minimal print of its own parse —
+    `parse ∘ printMin ∘ parse = parse`.  Together with `parse_printWith` this says that two texts
+    with the same tree are interchangeable and that the tree is the meaning. -/
+theorem parse_normal_form (ts : List Tok) (e : Expr) (h : parse ts = .ok e) :
+    parse (printMin e) = .ok e :=
+  parse_printMin e (parse_ok_fits_depth ts e h)
+
+-- redundant parentheses and `!` in the input, canonical text out, same tree
+example : parse [.lparen, .lparen, .atom 1, .rparen, .op .mul, .atom 2, .rparen, .op .add, .bang, .lparen, .atom 3, .rparen]
+    = .ok (.bin (.bin (.atom 1) .mul (.atom 2)) .add (.un .not (.atom 3))) := by rfl
+example : printMin (.bin (.bin (.atom 1) .mul (.atom 2)) .add (.un .not (.atom 3)))
+    = [.atom 1, .op .mul, .atom 2, .op .add, .notKw, .atom 3] := by rfl
+
 /-- a concrete non-trivial instance: `(a1 + a2) * - (a3 OR ())  <  ~ * ` -/
 def sample : Expr :=
   .bin (.bin (.bin (.atom 1) .add (.atom 2)) .mul (.un .neg (.bin (.atom 3) .or .unit))) .lt (.un .bitNot .wildcard)
@@ -128,6 +160,22 @@ example : parse [.atom 1, .op .or, .atom 2, .op .and, .atom 3, .op .eq, .atom 4,
       .op .add, .atom 6, .op .mul, .op .sub, .atom 7] =
     .ok (.bin (.atom 1) .or (.bin (.atom 2) .and (.bin (.atom 3) .eq (.bin (.atom 4) .bitOr
       (.bin (.atom 5) .add (.bin (.atom 6) .mul (.un .neg (.atom 7)))))))) := by rfl
+
+/-- `!` and `NOT` are two spellings of the same prefix operator: replacing one by the other
+    anywhere in any input (well-formed or not) changes neither the tree nor the error. -/
+theorem bang_is_not (ts : List Tok) : parse (ts.map normBang) = parse ts := by
+  unfold parse parseWith fuelFor
+  rw [List.length_map, (bang_eq_not MAX_DEPTH _).1]
+  cases hp : parseBpN MAX_DEPTH (2 * ts.length + 2) 0 0 ts with
+  | error e => rfl
+  | ok p =>
+    obtain ⟨e, r⟩ := p
+    cases r with
+    | nil => rfl
+    | cons t r => simp [mapRest, finish]
+
+example : [Tok.bang, .atom 1, .op .and, .bang, .bang, .atom 2].map normBang
+    = [.notKw, .atom 1, .op .and, .notKw, .notKw, .atom 2] := by rfl
 
 /-- The Pratt loop embedded in the statement parser (`parser.rs`, no depth counter) round-trips
     every expression at EVERY depth: nothing but the machine stack bounds its recursion. -/
